@@ -244,6 +244,103 @@ theorem after_counts_iff {s s' : State} {r : Nat} {q : Req} {o : HostId} {out : 
 example : ∃ s, Reachable s ∧ (s.reqs[0]?).map (·.pc) = some (Pc.exited 0 Outcome.upstreamErr) :=
   witness (exA.take 8) (by decide)
 
+/-- **failure_counted_even_when_already_down** — `countFailure` counts a refused dial / upstream
+    error whatever the Host's count is at that moment — in particular while the upstream is already
+    at or above `max_fails`: the step is enabled, adds exactly one to `fails` and appends the entry
+    (window starting now) that the forgetter will take away again.  (healthchecks.go:587-640 has no
+    early exit that looks at the current count; the only guards are "passive checks configured" and
+    "fail_duration ≠ 0" = `Params.counting`.) -/
+theorem failure_counted_even_when_already_down {s : State} {r : Nat} {q : Req} {o : HostId} {out : Outcome}
+    (hq : s.reqs[r]? = some q) (hpc : q.pc = .exited o out) (hk : out.countable = true)
+    (hc : q.par.counting = true) :
+    ∃ s', step s (.after r) = some s' ∧ s'.fails o = s.fails o + 1 ∧
+      s'.log = s.log ++ [newFail q o s.now (some out)] := by
+  refine ⟨_, by simp only [step, stepAfter, hq, hpc, hk, hc, if_true]; rfl, by simp, rfl⟩
+
+/-- the same for a bad-status strike of a request still in flight -/
+theorem strike_counted_even_when_already_down {s : State} {r : Nat} {q : Req} {o : HostId}
+    (hq : s.reqs[r]? = some q) (hpc : q.pc = .sending o) (hc : q.par.counting = true) :
+    ∃ s', step s (.strike r) = some s' ∧ s'.fails o = s.fails o + 1 ∧
+      s'.log = s.log ++ [newFail q o s.now none] := by
+  refine ⟨_, by simp only [step, stepStrike, hq, hpc, hc, if_true]; rfl, by simp, rfl⟩
+
+def pW : Params := { pA with failDur := 3, maxFails := 2, retries := 0 }
+
+/-- three requests were handed to Host 0 while it was healthy; they fail at t = 0, 1 and 2 — the
+    third one while the upstream is already down (fails = 2 = max_fails) -/
+def exW : List Action :=
+  [.newCfg pW, .store 0 7, .newReq 0 true, .newReq 0 true, .newReq 0 true, .dispatch 0 0, .dispatch 1 0, .dispatch 2 0,
+   .finish 0 .upstreamErr, .after 0, .spawn 0 0, .tick,
+   .finish 1 .upstreamErr, .after 1, .spawn 1 1, .tick,
+   .finish 2 .upstreamErr]
+
+example : ∃ s, Reachable s ∧ s.fails 0 = 2 ∧ healthy pW s 0 = false ∧
+    (s.reqs[2]?).map (·.pc) = some (Pc.exited 0 Outcome.upstreamErr) := witness exW (by decide)
+
+/-- …it is counted all the same (fails = 3), and when the first failure leaves the window at t = 3
+    the upstream is still held unhealthy, because two failures (t = 1, 2) are still inside; only at
+    t = 4 does it come back -/
+example : ∃ s, Reachable s ∧ Timely s ∧ s.now = 3 ∧ s.fails 0 = 2 ∧ windowCount s 0 = 2 ∧ healthy pW s 0 = false :=
+  witness (exW ++ [.after 2, .spawn 2 2, .tick, .forget 0]) (by decide)
+example : ∃ s, Reachable s ∧ Timely s ∧ s.now = 4 ∧ s.fails 0 = 1 ∧ healthy pW s 0 = true :=
+  witness (exW ++ [.after 2, .spawn 2 2, .tick, .forget 0, .tick, .forget 1]) (by decide)
+
+theorem total_b2n_eq_filter_length {α : Type} (P : α → Bool) (l : List α) :
+    total (fun x => b2n (P x)) l = (l.filter P).length := by
+  induction l with
+  | nil => rfl
+  | cons a as ih =>
+    simp only [total, List.filter_cons, ih]
+    cases P a <;> simp <;> omega
+
+/-- **unhealthy_iff_max_fails_in_window** — the window clause spelled out over the recorded failure
+    times, for every reachable state in which the due forgetters have run (any number of failures at
+    any times, also while the upstream was already down, any interleaving, any reloads): the upstream
+    is held unhealthy iff passive checks are on and at least `max_fails` of the failures counted on
+    its Host at times `tᵢ` by still-loaded configurations satisfy `tᵢ ≤ now < tᵢ + fail_duration`. -/
+theorem unhealthy_iff_max_fails_in_window {s : State} (h : Reachable s) (ht : Timely s) (p : Params) (o : HostId) :
+    healthy p s o = false ↔ p.passive = true ∧
+      p.maxFails ≤ (s.log.filter fun e => e.host == o && !canceled s e.cfg &&
+        decide (e.t0 ≤ s.now) && decide (s.now < e.t0 + e.dur)).length := by
+  rw [unhealthy_iff h ht p o]
+  have : windowCount s o = (s.log.filter fun e => e.host == o && !canceled s e.cfg &&
+      decide (e.t0 ≤ s.now) && decide (s.now < e.t0 + e.dur)).length := by
+    rw [← total_b2n_eq_filter_length]
+    apply total_congr
+    intro e he
+    have ht0 := (window_entries_wellformed h he).1
+    simp only [windowW, inWindow, Fail.exp]
+    cases e.host == o <;> cases canceled s e.cfg <;> simp [ht0] <;> (first | rfl | (congr 1; exact decide_eq_decide.mpr Iff.rfl))
+  rw [this]
+
+example : ∃ s, Reachable s ∧ Timely s ∧ (s.log.map fun e => (e.t0, e.dur)) = [(0, 3), (1, 3), (2, 3)] ∧ s.now = 3 :=
+  witness (exW ++ [.after 2, .spawn 2 2, .tick, .forget 0]) (by decide)
+
+/-- **counter_updates_never_err** — the error branches of hosts.go `countRequest` / `countFail`
+    ("count below 0") and with them the early return of `countFailure` that skips the forgetter are
+    dead in every reachable state: an increment never lands below 1, the deferred in-flight decrement
+    of a request being sent and the forgetter's decrement never land below 0. -/
+theorem counter_updates_never_err {s : State} (h : Reachable s) (o : HostId) :
+    0 < s.fails o + 1 ∧ 0 < s.inflight o + 1 ∧
+    (∀ q ∈ s.reqs, q.pc.inFlightOn o = true → 0 ≤ s.inflight o - 1) ∧
+    (∀ e ∈ s.log, e.host = o → e.st ≠ .forgotten → 0 ≤ s.fails o - 1) := by
+  have h1 := fails_never_negative h o
+  have h2 := inflight_never_negative h o
+  refine ⟨by omega, by omega, ?_, ?_⟩
+  · intro q hq hin
+    have := le_total_of_mem (inFlightW o) s.reqs q hq
+    have hw : inFlightW o q = 1 := by simp [inFlightW, hin]
+    have := inflight_eq h o
+    simp only [sendingCount] at this; omega
+  · intro e he ho hst
+    have := le_total_of_mem (pendingW o) s.log e he
+    have hb : (e.st != FSt.forgotten) = true := by simpa using hst
+    have hw : pendingW o e = 1 := by simp [pendingW, ho, hb]
+    have := fails_eq_pending_forgetters h o
+    simp only [pendingForgetters] at this; omega
+
+example : ∃ s, Reachable s ∧ s.fails 0 = 2 ∧ s.inflight 0 = 2 := witness exA (by decide)
+
 -- ---------------------------------------------------------------- which answers strike
 
 /-- `StatusCodeMatches` (caddyhttp.go:230-240): an unhealthy_status entry matches the status the
@@ -269,6 +366,16 @@ theorem strikeCount_eq_matching_entries (entries : List Nat) (actual : Nat) :
 
 example : strikeCount [500, 5] 500 = 2 ∧ strikeCount [4, 429, 503] 429 = 2 ∧ strikeCount [50] 500 = 0 ∧
     strikeCount [200, 2] 200 = 2 := by decide
+
+/-- a round trip that took at least unhealthy_latency earns exactly one strike on top of the
+    status strikes, and only when failures are counted at all (reverseproxy.go:924-928) -/
+theorem slow_answer_strikes_once_more (p : Params) (code : Nat) :
+    strikesFor p "sl" code = strikesFor p "ok" code + (if p.counting && p.latency then 1 else 0) := by
+  simp only [strikesFor]
+  cases p.counting <;> cases p.latency <;> simp <;> decide
+
+example : strikesFor { pA with latency := true, badStatus := [200, 2] } "sl" 200 = 3 ∧
+    strikesFor { pA with latency := true, failDur := 0 } "sl" 200 = 0 := by decide
 
 /-- an upstream's own `max_requests` wins over the passive checker's unhealthy_request_count
     (provisionUpstream, reverseproxy.go:1218-1231); only upstreams without one inherit it -/
